@@ -832,12 +832,24 @@ class HexaryTrie:
     @contextlib.contextmanager
     def squash_changes(self):
         scratch_db = ScratchDB(self.db)
+        if self.is_pruning:
+            # The batch works on a copy of the reference counts, so that a batch
+            # which is aborted by an exception leaves this trie's counts untouched.
+            batch_ref_count = self._ref_count.copy()
+        else:
+            batch_ref_count = None
+
         with scratch_db.batch_commit(do_deletes=self.is_pruning):
             Trie = type(self)
             memory_trie = Trie(
-                scratch_db, self.root_hash, prune=True, ref_count=self._ref_count
+                scratch_db, self.root_hash, prune=True, ref_count=batch_ref_count
             )
             yield memory_trie
+
+        if self.is_pruning:
+            # The batch was committed, so adopt its reference counts
+            self._ref_count.clear()
+            self._ref_count.update(batch_ref_count)
 
         if self.root_hash != memory_trie.root_hash:
             try:
@@ -847,8 +859,8 @@ class HexaryTrie:
                 self.root_hash = memory_trie.root_hash
             else:
                 if self.is_pruning:
-                    # The batch trie shares this trie's reference counts, and has
-                    # already stored and counted its root node. Counting the root
+                    # The batch trie has already stored and counted its root node,
+                    # and its reference counts were adopted above. Counting the root
                     # again here would leave it behind forever.
                     self.root_hash = memory_trie.root_hash
                 else:
